@@ -113,7 +113,7 @@ def main():
         'setup_cmd': 'sh ./setup.sh',
         'hooks': {
             'guard': 'ARTAP_VERIF',
-            'enable': 'no source hooks are needed: stubs are installed at run time by assigning module globals of the imported artap modules (see DESIGN.md 2.2); the guard is reserved and unused',
+            'enable': 'no source hooks are needed: stubs are installed at run time by assigning module globals of the imported artap modules (see DESIGN.md 2.3); the guard is reserved and unused',
             'baseline_off_cmd': 'cd /repo && /venv/bin/python -m pytest -ra -q -p no:cacheprovider --timeout=900 --continue-on-collection-errors',
             'source_commits': [],
             'add_only': True,
